@@ -47,7 +47,8 @@ impl Check for C13 {
         let dp = *r.pick(&[DrainPolicy::AlwaysAll, DrainPolicy::Mixed, DrainPolicy::Mixed, DrainPolicy::AlwaysDrop]);
         let mut gs = GenStats::default();
         let mut evs = gen_events(r, &cfg, &o, policy, dp, &mut gs);
-        if let Some(v) = super::draw_volume(r, limit.is_some()) {
+        let (gc, gr) = super::max_geometry(&cfg, &evs);
+        if let Some(v) = super::draw_volume(r, limit.is_some(), gc, gr) {
             // a volume string as one call of its own
             let s = super::volume_string(r, v);
             let at = r.usize_below(evs.len() + 1);
